@@ -282,6 +282,8 @@ func checkC14(w *World, r *Report) {
 	}
 	r.Rule("C14.R4", "every element transfer (grow copy, slot written, slot read, PopN copy) depends on the ring origin head/tail, in ascending order, and the origin moves by the number of elements handled", 6)
 	checkRingOrigin(w, r, "C14.R4")
+	r.Rule("C14.R5", "ring index arithmetic where it is affine: growing is a rotation by the old head, PopN reads from head+1+i and advances by the count, Pop advances by one and reads the new head", 3)
+	checkRingRotation(w, r, "C14.R5")
 	ops := w.atomicOpsOn(rb, "len")
 	// R2
 	{
